@@ -345,7 +345,7 @@ func genJobs(r *rt.Run) []*Job {
 
 	// B. field type changes: every ordered pair (thorough: also every triple over a smaller alphabet) of
 	// uniform batches of kinds int/float/string/missing-field and the empty batch, as windows of a de Bruijn sequence.
-	kinds := []string{"int", "float", "str", "none"}
+	kinds := []string{"int", "float", "str", "bool", "none"}
 	type alpha struct {
 		syms  [][]Pt
 		n     int
@@ -512,7 +512,7 @@ func randomJob(rnd *rand.Rand) *Job {
 	c := randomCfg(rnd)
 	j := &Job{Cfg: c, Phase: "random"}
 	groups := []string{"a", "b", "c"}[:1+rnd.Intn(3)]
-	kinds := []string{"int", "float", "int", "float", "str", "none"}
+	kinds := []string{"int", "float", "int", "float", "int", "float", "str", "bool", "none"}
 	val := func() int { return rnd.Intn(9) - 3 }
 	if rnd.Intn(3) < 2 {
 		j.Mode = "batch"
